@@ -245,6 +245,19 @@ Theorem C17_n1_unrepaired_truncates : forall rx valid pk script esc fa va ea cur
 Proof. exact n1_unrepaired_truncates. Qed.
 Print Assumptions C17_n1_unrepaired_truncates.
 
+(* the file after a save does not depend on what it held before (open with O_TRUNC = replacement):
+   a second, smaller dump to the same path leaves exactly the new dump *)
+Theorem C17_write_replaces_content : forall (data : Type) (sf : bool) (d : data) (dump_ok : bool) u m (c1 c2 : content data),
+  write_mapping sf d true dump_ok (mkFs u (Some (m, c1))) = write_mapping sf d true dump_ok (mkFs u (Some (m, c2)))
+  \/ (sf = true /\ dump_ok = false).
+Proof. exact @write_replaces_content. Qed.
+Print Assumptions C17_write_replaces_content.
+
+Theorem C17_saved_content_is_the_dump : forall (data : Type) (sf : bool) (d : data) (open_ok dump_ok : bool) (st : fs data) o st',
+  write_mapping sf d open_ok dump_ok st = (o, st') -> o = Saved -> exists m, fs_file st' = Some (m, CData d).
+Proof. exact @saved_content_is_the_dump. Qed.
+Print Assumptions C17_saved_content_is_the_dump.
+
 (* reader_consistent: every query form returns the saved values *)
 Theorem C17_reader_vars_idx_single : forall d x k r,
   get_variables d (QStr x) (Some k) = r ->
